@@ -58,10 +58,18 @@ func OracleFullVsMem(prefix string) SeqOracle {
 				}
 				fmt.Fprintf(&b, "key%x locked%d value%x:", k.Key[15], k.Locked, k.Value)
 				for _, h := range k.Holds {
-					fmt.Fprintf(&b, " H(id%x req%d depth%d c%d rc%d f%x tf%x ef%x e%d in%d)", h.LockId[15], h.Req[0], h.Depth, h.Count, h.Rcount, h.Flag, h.TimeoutFlag, h.ExpriedFlag, h.Expried, h.ExpriedIn)
+					req := h.Req[0]
+					if r.Spec.Text {
+						req = 0 // text requests carry no RequestId of the client's
+					}
+					fmt.Fprintf(&b, " H(id%x req%d depth%d c%d rc%d f%x tf%x ef%x e%d in%d)", h.LockId[15], req, h.Depth, h.Count, h.Rcount, h.Flag, h.TimeoutFlag, h.ExpriedFlag, h.Expried, h.ExpriedIn)
 				}
 				for _, w := range k.Waiters {
-					fmt.Fprintf(&b, " W(id%x req%d c%d rc%d f%x t%d tf%x e%d ef%x in%d)", w.LockId[15], w.Req[0], w.Count, w.Rcount, w.Flag, w.Timeout, w.TimeoutFlag, w.Expried, w.ExpriedFlag, w.TimeoutIn)
+					wreq := w.Req[0]
+					if r.Spec.Text {
+						wreq = 0
+					}
+					fmt.Fprintf(&b, " W(id%x req%d c%d rc%d f%x t%d tf%x e%d ef%x in%d)", w.LockId[15], wreq, w.Count, w.Rcount, w.Flag, w.Timeout, w.TimeoutFlag, w.Expried, w.ExpriedFlag, w.TimeoutIn)
 				}
 				b.WriteString("; ")
 			}
